@@ -93,9 +93,22 @@ def _all_cases():
     return subsets, enc
 
 
+def _with_repeats(rng, subsets, per):
+    """every subset as a list / tuple in which one to seven members occur again, in a shuffled order (lengths up to 14): a repeated
+    member is refused however much of the week the sequence covers"""
+    out = []
+    for sub in subsets:
+        for _ in range(per):
+            seq = list(sub) + [rng.choice(sub) for _ in range(rng.choice([1, 1, 2, 3, 7]))]
+            rng.shuffle(seq)
+            out.append((rng.choice(["list", "tuple"]), seq))
+    return out
+
+
 def streams(ctx):
     subsets, enc = _all_cases()
     ctx.run_cases(ENC, "encode-all-forms-exhaustive", enc, exhaustive=True, sample_every=397)
+    ctx.run_cases(ENC, "sequences-of-any-length-with-repeated-members", _with_repeats(ctx.rng, subsets, ctx.n(3, 40)), exhaustive=False, sample_every=97)
     ctx.run_cases(DEC, "decode-all-masks-exhaustive", list(range(-2, 301)), exhaustive=True, sample_every=97)
     ctx.run_cases(RT, "roundtrip-127-subsets", subsets, exhaustive=True, sample_every=41)
     # every mask again, after the sets returned the first time have been modified by their caller; and the encodings again, in another
